@@ -176,21 +176,55 @@ Theorem c04_port_ignored_gen : forall h port,
   h <> [] -> plain h -> plain port -> request_host_key (h ++ colon :: port) = h.
 Proof. exact request_host_key_port. Qed.
 
-(** IPv6 literals: "[a]:port" loses its brackets ... *)
-Theorem c04_ipv6_with_port : forall a port,
-  ~ In x5b a -> ~ In x5d a -> plain port ->
-  request_host_key (x5b :: a ++ x5d :: colon :: port) = a.
-Proof. exact request_host_key_bracket_port. Qed.
+(** IPv6 literals ("[a]" with a ':' inside): the port is ignored as well, the
+    key keeps its brackets with and without a port. *)
+Theorem c04_port_ignored_ipv6 : forall a port,
+  In colon a -> ~ In x5b a -> ~ In x5d a -> plain port ->
+  request_host_key (x5b :: a ++ x5d :: colon :: port) = x5b :: a ++ [x5d] /\
+  request_host_key (x5b :: a ++ [x5d]) = x5b :: a ++ [x5d].
+Proof. exact port_ignored_ipv6. Qed.
 
-(** ... but "[a]" without a port keeps them: the two forms of one authority
-    are looked up under different keys. *)
+(** "[a]" without a port keeps its brackets, whatever [a] is ... *)
 Theorem c04_ipv6_without_port_keeps_brackets : forall a,
   ~ In x5d a -> request_host_key (x5b :: a ++ [x5d]) = x5b :: a ++ [x5d].
 Proof. exact request_host_key_bracket_no_port. Qed.
 
+(** ... but a bracketed host WITHOUT ':' inside loses them when a port follows:
+    "[abc]:80" is looked up as "abc", "[abc]" as "[abc]" (not an IPv6 literal;
+    no client sends it). *)
+Theorem c04_bracketed_name_with_port : forall a port,
+  ~ In colon a -> ~ In x5b a -> ~ In x5d a -> plain port ->
+  request_host_key (x5b :: a ++ x5d :: colon :: port) = a.
+Proof. exact request_host_key_bracket_port_no_colon. Qed.
+
+(** The tree as given ([request_host_key_pinned]) looked the two forms of one
+    IPv6 authority up under different keys. *)
+Theorem c04_refuted_pinned_ipv6 : exists a port,
+  request_host_key_pinned (x5b :: a ++ x5d :: colon :: port) <>
+  request_host_key_pinned (x5b :: a ++ [x5d]).
+Proof. exact refuted_pinned_ipv6. Qed.
+
+(** (for every literal: "[a]:port" gave "a", "[a]" gave "[a]") *)
+Theorem c04_pinned_ipv6_keys : forall a port,
+  ~ In x5b a -> ~ In x5d a -> plain port ->
+  request_host_key_pinned (x5b :: a ++ x5d :: colon :: port) = a /\
+  request_host_key_pinned (x5b :: a ++ [x5d]) = x5b :: a ++ [x5d].
+Proof.
+  intros a port Hl Hr Hp. split; [exact (request_host_key_pinned_bracket_port a port Hl Hr Hp)|].
+  exact (request_host_key_pinned_bracket_no_port a Hr).
+Qed.
+
+(** For plain hosts nothing changed. *)
+Theorem c04_pinned_port_ignored : forall h port,
+  h <> [] -> plain h -> plain port -> request_host_key_pinned (h ++ colon :: port) = h.
+Proof. exact request_host_key_pinned_port. Qed.
+
 Example c04_ipv6_discrepancy :
-  request_host_key (bs "[::1]:80") = bs "::1" /\ request_host_key (bs "[::1]") = bs "[::1]".
-Proof. vm_compute. split; reflexivity. Qed.
+  (request_host_key (bs "[::1]:80") = bs "[::1]" /\ request_host_key (bs "[::1]") = bs "[::1]") /\
+  (request_host_key_pinned (bs "[::1]:80") = bs "::1" /\
+   request_host_key_pinned (bs "[::1]") = bs "[::1]") /\
+  (request_host_key (bs "[abc]:80") = bs "abc" /\ request_host_key (bs "[abc]") = bs "[abc]").
+Proof. vm_compute. repeat split; reflexivity. Qed.
 
 (** * Non-vacuity *)
 
@@ -296,5 +330,9 @@ Print Assumptions c04_reachable_wf.
 Print Assumptions c04_history_free.
 Print Assumptions c04_port_ignored.
 Print Assumptions c04_port_ignored_gen.
-Print Assumptions c04_ipv6_with_port.
+Print Assumptions c04_port_ignored_ipv6.
 Print Assumptions c04_ipv6_without_port_keeps_brackets.
+Print Assumptions c04_bracketed_name_with_port.
+Print Assumptions c04_refuted_pinned_ipv6.
+Print Assumptions c04_pinned_ipv6_keys.
+Print Assumptions c04_pinned_port_ignored.
